@@ -51,7 +51,7 @@ LEVEL_TEXT = ('Kernel-checked: every modelled user action (tables, columns, view
               'with every helper column in use, hence every bundle and every reachable state; removals with '
               'back-reference clearing leave no reference to a removed record; RemoveColumn of group-by sources and '
               'UpdateSummaryViewSection included: C09_full is a theorem without side conditions. The witnesses of the '
-              'three defects repaired on the way (e0ec788, ae5ee6e, ea10a38) are regression examples and scripted histories.')
+              'four defects repaired on the way (e0ec788, ae5ee6e, ea10a38, 811c657) are regression examples and scripted histories.')
 LEVEL_NOTE = ('Kernel strength: what summary.py decides from names/types/formulas enters as recorded parameters; '
               'actions outside the model are covered by the oracle only (listed under assumptions).')
 
@@ -1370,9 +1370,9 @@ def correspond(ctx):
                  'history %s ops %s' % (json.dumps(recs[i]['history'], default=repr), [repr(o) for o in recs[i]['ops']]))
   # the repaired defects must not occur in any successful bundle (each would also make the model reject or differ)
   for i, r in enumerate(recs):
-    # duplicates are fine when all move; detaching a raw section is reported by the oracle (known finding)
-    for d in sorted(regroup_defects(r) - {'duplicate-field-regrouped', 'detach-raw-section',
-                                          'renamed-column-field-left-behind'}):
+    # duplicates are fine when all move; the renamed-column case is reported by the oracle (known finding);
+    # detaching a raw section is refused since 811c657, so it cannot be part of a successful bundle
+    for d in sorted(regroup_defects(r) - {'duplicate-field-regrouped', 'renamed-column-field-left-behind'}):
       ctx.broken('monitor:update_summary_section ran in a way the repaired code excludes (%s)' % d,
                  'history %s' % json.dumps(r['history'], default=repr))
   ctx.extra['bundles'] = len(recs)
